@@ -4,12 +4,12 @@
 P=$1; OFF=${2:-3}; cd /verif
 for k in 1 2 3; do n=$((k+OFF)); d=seeded/$P-m$n; [ -f /tmp/mut/$P-out/m$k/patch.diff ] || continue
   mkdir -p $d; cp -r /tmp/mut/$P-out/m$k/patch.diff /tmp/mut/$P-out/m$k/demo $d/
-  python3 - $P $k $d <<'PY'
+  python3 - $P $k $d $OFF <<'PY'
 import json,sys
-P,k,d=sys.argv[1:]
+P,k,d,off=sys.argv[1:]
 try: m=json.load(open(f'/tmp/mut/{P}-out/m{k}/meta.json'))
 except Exception: m={}
-m['property']=P; m['round']=2
+m['property']=P; m['round']=int(off)//3+1
 m['confirmed']={"how":"tools/confirm_mutant.sh in a scratch git worktree of /repo: patch applies, go build ./... and the pinned suite pass (only the baseline ipblockstest_4 failures), the demonstration fails with the change and passes without it","suite_passed":True,"demo_clean":"pass","demo_mutant":"fail"}
 json.dump(m,open(d+'/meta.json','w'),indent=1)
 PY
